@@ -13,7 +13,7 @@ T = {
          "Every word over {'.',CR,LF,x} up to length 8 (quick) / 10 (thorough) plus seeded random 8-bit bodies, under generated segmentations and backend read sizes, in SMTP/LMTP, with a size limit above, at and below the message length (below: only a prefix and never EOF) with a line limit no smaller than the longest LF-delimited stretch, with a pause longer than the server's WriteTimeout in mid-message, and with the end of the connection reported together with the last octets (n > 0, io.EOF), compared octet for octet with an independent reference (split on CRLF, strip one dot); EOF and its stickiness checked, and a failed reader stays failed when asked again.",
          "Reference model ref/unstuff.go; memnet delivers segments exactly as cut; exploration only - streams longer than the bounds are sampled, not enumerated.", "4/C01"),
  "C02": ("rapid PBT + native fuzz over message streams with bait commands and terminator look-alikes; callback-trace and exact reply-stream oracle",
-         "Generated message streams containing bait command lines and every end-marker look-alike, crossed with backend read behaviour, verdict, size limit and SMTP/LMTP mode, plus stalls past the read timeout and over-long message lines under a small line limit (there only 'nothing of the message is executed' is demanded); oracle: no bait ever reaches a callback, the marker command after the true end marker is executed exactly once and next, and the reply stream is exactly the predicted one.",
+         "Generated message streams containing bait command lines and every end-marker look-alike, crossed with backend read behaviour, verdict, size limit and SMTP/LMTP mode, in plaintext and under TLS, plus stalls past the read timeout and over-long message lines under a small line limit (there only 'nothing of the message is executed' is demanded); oracle: no bait ever reaches a callback, the marker command after the true end marker is executed exactly once and next, and the reply stream is exactly the predicted one.",
          "Markers/baits are recognised by unique addresses; reply stream parsed strictly; exploration.", "4/C02"),
  "C03": ("model-based PBT: generated command histories vs an explicit command-state monitor and callback-trace invariants",
          "Histories of up to 25 (quick) / 40 (thorough) abstract commands with scripted backend decisions, driven lock-step over memnet; the alphabet includes a STARTTLS whose handshake fails and multi-line backend errors, and a graceful Server.Shutdown may begin at any point of the history (the open connection stays served); a reference monitor (transition table in ref/monitor.go) predicts for each command refusal-without-callback or the exact callback, and trace invariants check Reset/Logout placement, recipient limits and the greeting data seen in NewSession.",
@@ -22,11 +22,11 @@ T = {
          "The C03 history generator crossed with sending disciplines (one segment, random segmentation, one segment per line or per octet, optionally with the client's half-close arriving together with the last octets); every server octet stream must parse under a strict reply grammar with enhanced codes of the right class, contain exactly the predicted number of replies, and be identical whether commands are sent one by one or pipelined in any segmentation; schedules of gated BDAT deliveries check that each message's final reply reports that message's own verdict.",
          "Attribution of replies to commands comes from the lock-step run (server idle detection), not from parsing; exploration.", "4/C04"),
  "C05": ("rapid PBT + native fuzz over chunkings, refusal states and segmentations vs framing arithmetic",
-         "Messages over all 256 octets split into arbitrary BDAT chunkings (zero-size chunks, LAST on empty chunk), with bait commands inside payloads and marker commands after every chunk, in every refusal state and with a backend that fails after k octets (framing-only oracle), sizes optionally with leading zeros, optionally after an earlier chunked transaction on the connection and under a size limit the messages just fit, optionally while a graceful Server.Shutdown is in progress, with stalls past the read timeout, under generated segmentations including command+payload in one segment; oracle: one Data call reading the exact concatenation with EOF only after LAST, one reply per BDAT, markers executed exactly once, bait never.",
+         "Messages over all 256 octets split into arbitrary BDAT chunkings (zero-size chunks, LAST on empty chunk), with bait commands inside payloads and marker commands after every chunk, in every refusal state and with a backend that fails after k octets (framing-only oracle), sizes optionally with leading zeros, optionally after an earlier chunked transaction on the connection and under a size limit the messages just fit, optionally while a graceful Server.Shutdown is in progress, in plaintext and under TLS, with stalls past the read timeout, under generated segmentations including command+payload in one segment; oracle: one Data call reading the exact concatenation with EOF only after LAST, one reply per BDAT, markers executed exactly once, bait never.",
          "Framing reference is arithmetic on the declared sizes; exploration.", "4/C05"),
  "C06": ("rapid PBT + small-range enumeration, differential against an unlimited server",
          "Limits N in a small range (and around the 4096 buffer in thorough), message sizes N-2..N+2 and far above, by DATA and by every chunking into <=4 BDAT chunks, declared SIZE values around N and around 2^32/2^63, BDAT sizes around 2^31/2^32/2^63/2^64 followed by more than N octets of commands; oracle: octets read <= N, <=N behaves exactly like a server without limit, >N yields reader error + 552 + discarded transaction + marker executed once, SIZE>N refused 552 without callback.",
-         "Honest backend (propagates reader errors); content is drawn as wire lines (not only what a conforming dot-stuffer emits) with the limit on line boundaries; optionally after an earlier chunked transaction on the same connection (completed, RSET, or cut by STARTTLS); exploration.", "4/C06"),
+         "Honest backend (propagates reader errors); plaintext and TLS; content is drawn as wire lines (not only what a conforming dot-stuffer emits) with the limit on line boundaries; optionally after an earlier chunked transaction on the same connection (completed, RSET, or cut by STARTTLS); exploration.", "4/C06"),
  "C07": ("fault injection at every cut offset of generated conversations (exhaustive per conversation) + abandoning actions",
          "For each rapid-drawn DATA/BDAT conversation (SMTP and LMTP) the client stream is cut at every byte offset, by clean EOF (reported in a Read of its own or together with the last octets) and by reset; chunks announced with enormous sizes (around 2^31, 2^32, 2^63, 2^64 and beyond) are cut short after 0 or 7 octets; and every abandoning action (RSET, QUIT, new greeting, EOF, idle timeout, an over-limit chunk followed by a fitting LAST chunk) is tried between chunks; oracle: the backend reader reports EOF only if the generator knows the message was complete at that offset and the octets are the full message, otherwise a non-EOF error and no 2xx final reply.",
          "Cut offsets are exhaustive per conversation, conversations are sampled; idle timeout triggered with a 30 ms ReadTimeout (used as trigger, never as oracle).", "4/C07"),
@@ -49,20 +49,20 @@ T = {
          "Recipient sequences up to 4 over 2 addresses (with RCPT rejections), every subset/order/timing of SetStatus calls, return value, panic, DATA/BDAT, per-recipient or plain backend (the latter also succeeding without reading), multi-line statuses, recipients differing only in case, optionally after an abandoned chunked transfer; a sequential client (writes the whole message, then reads) over a transport without buffering (net.Pipe semantics) against backends that return before the end of the message; the i-th final reply must name the i-th accepted recipient and carry the status the script assigns to that occurrence; exactly n replies and the marker command answered next (no deadlock, state-based detection).",
          "Misuse of the collector (too many calls, unknown recipient) only checked for liveness and well-formedness; exploration / exhaustive in thorough.", "4/C13"),
  "C14": ("round-trip PBT + native fuzz: real Client -> real Server over memnet, field-by-field equality; per-scalar and short-string enumeration over the encoding alphabet",
-         "Every MailOptions/RcptOptions field with generated values, every ASCII octet and sampled (quick) / all (thorough) Unicode scalars in each string-valued option, all short strings over the encoding-significant alphabet, with and without SMTPUTF8, under unrelated server settings (recipient limit, size limit, BINARYMIME, LMTP) and after connection preludes (AUTH, an earlier transaction, Client.Reset); sender and recipient strings put together from pieces (atoms, quoted strings, brackets, parameter look-alikes, routes, UTF-8, white space at the ends) through Mail/Rcpt and through Client.SendMail with the oracle 'accepted implies observed identically, well-formed implies accepted'; the backend must observe exactly the values passed to the client API, or the client must refuse locally outside the guaranteed domain.",
+         "Every MailOptions/RcptOptions field with generated values, every ASCII octet and sampled (quick) / all (thorough) Unicode scalars in each string-valued option, all short strings over the encoding-significant alphabet, with and without SMTPUTF8, under unrelated server settings (recipient limit, size limit, BINARYMIME, LMTP), with the server's replies delivered in fragments of a few octets, and after connection preludes (AUTH, an earlier transaction, Client.Reset); sender and recipient strings put together from pieces (atoms, quoted strings, brackets, parameter look-alikes, routes, UTF-8, white space at the ends) through Mail/Rcpt and through Client.SendMail with the oracle 'accepted implies observed identically, well-formed implies accepted'; the backend must observe exactly the values passed to the client API, or the client must refuse locally outside the guaranteed domain.",
          "Both ends are go-smtp, as the property states; exploration.", "4/C14"),
  "C15": ("PBT + native fuzz with a scripted fake server: hostile short strings in every string argument x advertised-extension subsets x option subsets; oracle on the octets written",
          "A scripted server advertising generated extension subsets (different on re-EHLO; none at all; or refusing EHLO so that the client falls back to HELO) records the client's octets; each API call may contribute at most one CRLF-terminated line free of bare CR/LF, ESMTP keywords only of extensions in the latest EHLO reply, and REQUIRETLS/SMTPUTF8 not offered must be a local error with nothing written.",
          "Exploration; hostile strings over {CR, LF, NUL, SP, <, >, letter, quote, backslash} enumerated up to length 3 (quick) / 4 (thorough).", "4/C15"),
  "C16": ("exhaustive token words + rapid bodies + native fuzz x Write partitions through the real client to the real server; LF->CRLF normalisation function as oracle",
-         "All words over {'.',LF,CRLF,x} up to length 6 (quick) / 8 (thorough) plus random 8-bit bodies and messages of long lines whose line endings straddle the client's 4096-octet flush boundary, written in every 2-split, byte-by-byte and random partitions, optionally after an earlier message with its own verdict (whose writer may be closed again in mid-message: error, zero octets), under a server size limit the message just fits, with senders/recipients containing '%' and other format characters; the backend must read the normalised body with the exact envelope once, Close must return the server's verdict, a second Close must be an error with no further octets reaching the server.",
+         "All words over {'.',LF,CRLF,x} up to length 6 (quick) / 8 (thorough) plus random 8-bit bodies and messages of long lines whose line endings straddle the client's 4096-octet flush boundary, written in every 2-split, byte-by-byte and random partitions, optionally after an earlier message with its own verdict (whose writer may be closed again in mid-message: error, zero octets), under a server size limit the message just fits, with replies delivered in fragments and over a transport without buffering, with senders/recipients containing '%' and other format characters; the backend must read the normalised body with the exact envelope once, Close must return the server's verdict, a second Close must be an error with no further octets reaching the server.",
          "Exploration; both ends are go-smtp.", "4/C16"),
  "C17": ("PBT + native fuzz over error shapes through the wire and through the real client; reply codec reference in both directions",
          "SMTPError values (any code 400-599, enhanced code set/unset/absent, messages from a list of shapes or put together from pieces: line breaks, padding, signed/code-looking/reply-looking tokens, hyphens, non-ASCII) and plain errors returned from NewSession, Mail, Rcpt and Data (DATA or BDAT, optionally under a size limit the message fits exactly and after an earlier transaction with another outcome); greeted with EHLO or HELO, in SMTP and (envelope callbacks) LMTP mode, through Mail/Rcpt/Data or Client.SendMail; the wire reply must carry code, enhanced code and text per RFC 2034 and the client must return an equal SMTPError; plain errors map to 451/554.",
          "Ambiguous NoEnhancedCode+code-looking-text cases are unspecified; exploration.", "4/C17"),
  "C18": ("model-based PBT: 1-3 LMTP transactions on one client connection vs the scripted per-recipient verdicts",
          "Generated sequences of LMTP transactions (1-3 recipients, some refused at RCPT, verdict vectors, with and without status callback, optional Reset, verdict codes incl. 421, a locally refused Mail between recipients, optionally a slow delivery to one recipient), and the same client against a scripted LMTP peer that accepts recipients with 250 or 251, may answer in two lines and may hang up together with the last replies (end of stream reported with the last octets); the callback log must equal the script per transaction and Close must return (state-based hang detection) with the right error.",
-         "Real client against real server in LMTP mode over memnet, and against a scripted peer; wall-clock time is used only as a trigger for the slow-delivery cases; exploration.", "4/C18"),
+         "Real client against real server in LMTP mode over memnet (replies optionally fragmented, transport optionally without buffering), and against a scripted peer; wall-clock time is used only as a trigger for the slow-delivery cases; exploration.", "4/C18"),
  "C19": ("boundary enumeration of line lengths x positions, exhaustive short byte strings, rapid blobs and native fuzz; oracles: no panic log, length rule, bounded octets consumed, error threshold",
          "Line lengths L-2..L+3 and 3L at every conversation position for several limits, endless lines (octets consumed measured on memnet, with and without a Debug writer attached), all strings up to length 4 (quick) / 5 (thorough) over {NUL,CR,LF,SP,A,a,:,<} as command lines, random blobs, and error-threshold mixes (optionally with a STARTTLS upgrade in between).",
          "Bounded buffering measured as octets consumed from the network before the server gives up; exploration.", "4/C19"),
